@@ -772,6 +772,10 @@ def build_config(desc: dict, ctx: Ctx) -> TreeConfig:
     gsc = build_gsc(desc["gsc"], ctx)
     sprout = build_sprout(desc["sprout"])
     options = dict(desc.get("options", {}))
+    if "log_level" in options:
+        from pyhms.logging_ import LoggingLevel
+
+        options["log_level"] = LoggingLevel(options["log_level"])
     kw = {}
     if any(lv["engine"] in ("custom", "custom_ea", "custom_ea2") for lv in desc["levels"]):
         # registration order on purpose: the base class of custom_ea2's config is registered before it
@@ -815,6 +819,14 @@ def run_case(desc: dict, monitors=(), gsc_cap=30000, run=True) -> Ctx:
                         tree = DemeTree(cfg)
                         ctx.emit("tree_ready", tree)
                         if run:
+                            for _ in range(int(desc.get("steps_before_run", 0))):
+                                # a run carried out in pieces: a few explicit steps (as a user loop would do), then run()
+                                with activate(None):
+                                    stop = bool(tree._gsc(tree))
+                                if stop:
+                                    break
+                                tree.run_step()
+                                ctx.cov["explicit_steps_before_run"] += 1
                             tree.run()
                             if desc.get("rerun"):
                                 # calling run() again on a finished tree must be a no-op (the GSC still holds)
